@@ -13,6 +13,7 @@ import Mathlib.Algebra.Order.Ring.Rat
 import TsdateVerif.Proofs.Changepoints
 import TsdateVerif.Proofs.FixedCp
 import TsdateVerif.Proofs.Pelt
+import TsdateVerif.Proofs.PoissonLoss
 
 namespace Tsdate.C26
 open Tsdate.Changepoints
@@ -129,6 +130,29 @@ theorem pelt_sound_of_superadditive (f : Nat → Nat → κ) (pen top F0 : κ) (
 
 end DP
 
+/-! ### the Poisson deviance of the code, without minimum constraints -/
+section Poisson
+variable {α : Type} [Inhabited α] [Field α] [LinearOrder α] [IsStrictOrderedRing α]
+
+/-- **Clause 2 holds where it can: without minimum constraints and with positive counts and offsets the
+code's pruned recursion returns a segmentation of minimum penalised Poisson deviance**, for every
+`log` satisfying the log-sum inequality (`LogSum lg`, true of the real logarithm), every penalty `≥ 0`
+and every length.  (`plainLoss` is `poissonLoss` with `min_counts = min_offset = 0` valued in
+`WithTop α`; `F[0] = -penalty`.) -/
+theorem pelt_optimal_unconstrained (lg : α → α) (hlg : LogSum lg) (counts offs : List α)
+    (hc : ∀ x ∈ counts, 0 < x) (ho : ∀ x ∈ offs, 0 < x) (hlen : counts.length = offs.length)
+    (pen : α) (hpen : 0 ≤ pen) :
+    ∃ seg, segment true (plainLoss lg counts offs) ((-pen : α) : WithTop α) ((pen : α) : WithTop α) ⊤
+        counts.length = some seg ∧ IsSeg counts.length seg ∧
+      ∀ seg', IsSeg counts.length seg' →
+        segCost (plainLoss lg counts offs) ((pen : α) : WithTop α) ((-pen : α) : WithTop α) seg ≤
+        segCost (plainLoss lg counts offs) ((pen : α) : WithTop α) ((-pen : α) : WithTop α) seg' :=
+  pelt_sound_of_superadditive (plainLoss lg counts offs) _ ⊤ _ (by exact_mod_cast hpen) counts.length
+    (fun i j t hij hjt ht => plainLoss_superadditive lg hlg counts offs hc ho hlen i j t hij hjt ht)
+    (fun t h0 ht => plainLoss_lt_top lg counts offs hc ho hlen pen t h0 ht)
+
+end Poisson
+
 /-! ### Finding F6 on the model -/
 
 /-- natural logarithms to six decimals at the segment sums occurring in the witness -/
@@ -171,5 +195,9 @@ example : IsSeg 4 [0, 2, 4] :=
   IsSeg.snoc (IsSeg.snoc IsSeg.base (by decide : 0 < 2)) (by decide : 2 < 4)
 
 example : ∀ x : WithTop Rat, x ≤ ⊤ := fun _ => le_top
+
+/-- the hypothesis `LogSum` is satisfiable (degenerately by a constant; by the real logarithm in ℝ) -/
+example : LogSum (fun _ : Rat => (0 : Rat)) := by
+  intro a b c d _ _ _ _; simp
 
 end Tsdate.C26
